@@ -1016,4 +1016,54 @@ def callFn (P : Prog) : Nat → FnDef → List Val → Option Val
 
 end
 
+/-! ## `_check_branch` read from the source: atoms of its accepting conditions and their meaning
+
+`translate/c06.py` turns the body of `_check_branch` into `Generated.checkBranchAccept` (a list of conjunctions of these
+atoms, recognised by their exact source text); `Props/C06.lean` proves that the generated condition is `branchOk`. -/
+
+inductive CBAtom where
+  | alwaysReturns      -- `_always_returns(branch)`
+  | plain              -- `bool(branch) and all(isinstance(node, ast.Assign) and len(node.targets) == 1 and isinstance(node.targets[0], ast.Name) …)`
+  | restEmpty          -- `not rest`
+  | restLen1           -- `len(rest) == 1`
+  | rest0Return        -- `isinstance(ret := rest[0], ast.Return)`
+  | retValueName       -- `isinstance(ret.value, ast.Name)`
+  | lastTargetIsRet    -- `branch[-1].targets[0].id == ret.value.id`
+deriving DecidableEq, Repr
+
+def isPlainAssign : PyStmt → Bool
+  | .assign _ _ => true
+  | _ => false
+
+def cbAtom (rest b : List PyStmt) : CBAtom → Bool
+  | .alwaysReturns => bodyReturns b
+  | .plain => !b.isEmpty && b.all isPlainAssign
+  | .restEmpty => rest.isEmpty
+  | .restLen1 => rest.length == 1
+  | .rest0Return => match rest.head? with
+    | some (.ret _) => true
+    | some .retNone => true
+    | _ => false
+  | .retValueName => match rest.head? with
+    | some (.ret (.name _)) => true
+    | _ => false
+  | .lastTargetIsRet => match b.getLast?, rest.head? with
+    | some (.assign x _), some (.ret (.name n)) => n == x      -- (string equality: symmetric)
+    | _, _ => false
+
+def checkBranchG (accept : List (List CBAtom)) (rest b : List PyStmt) : Bool :=
+  accept.any (fun conj => conj.all (cbAtom rest b))
+
+/-! ## the `ast` class a model constructor stands for (what the two dispatchers test with `isinstance`) -/
+
+def exprClass : PyExpr → String
+  | .num _ => "Constant" | .name _ => "Name" | .attr _ => "Attribute" | .un _ _ => "UnaryOp" | .bin _ _ _ => "BinOp"
+  | .cmp _ _ _ => "Compare" | .ife _ _ _ => "IfExp" | .call _ _ => "Call" | .callKw _ _ => "Call"
+  | .unsupported => "<any other class>"
+
+def stmtClass : PyStmt → String
+  | .assign _ _ => "Assign" | .tupleAssign _ _ => "Assign" | .multiAssign _ _ => "Assign" | .unpackAssign _ _ => "Assign"
+  | .augAssign _ _ _ => "AugAssign" | .ifs _ _ _ => "If" | .ret _ => "Return" | .retNone => "Return"
+  | .skip => "Pass" | .importS _ => "ImportFrom" | .unhandled => "<any other class>"
+
 end Mxl.C06
